@@ -34,14 +34,16 @@ type Step struct {
 }
 
 type Sched struct {
-	mu     sync.Mutex
-	byGid  map[int64]*Thread
-	All    []*Thread
-	ev     chan *Thread
-	Trace  []Step
-	NStep  int
-	OnStep func(t *Thread) // called just before t is resumed (scheduler goroutine)
-	Skip   func(point string) bool // hooks that are not scheduling points in this harness (run through)
+	mu       sync.Mutex
+	byGid    map[int64]*Thread
+	All      []*Thread
+	ev       chan *Thread
+	Trace    []Step
+	NStep    int
+	OnStep   func(t *Thread)         // called just before t is resumed (scheduler goroutine)
+	Skip     func(point string) bool // hooks that are not scheduling points in this harness (run through)
+	MaxSteps int                     // 0 = unbounded; Run stops (Aborted) after that many steps: some goroutine spins for ever
+	Aborted  bool
 }
 
 func gid() int64 {
@@ -131,6 +133,10 @@ func (s *Sched) Run(choose func(en []*Thread) *Thread) {
 	for {
 		en := s.EnabledThreads()
 		if len(en) == 0 {
+			return
+		}
+		if s.MaxSteps > 0 && s.NStep >= s.MaxSteps {
+			s.Aborted = true
 			return
 		}
 		t := choose(en)
